@@ -22,6 +22,7 @@ import (
 	"io"
 	"sort"
 	"strings"
+	"sync"
 
 	"github.com/google/go-containerregistry/pkg/name"
 	ggcrv1 "github.com/google/go-containerregistry/pkg/v1"
@@ -88,6 +89,7 @@ type c15Step struct {
 	R       int       `json:"r"`       // revision index
 	Active  bool      `json:"active"`  // rec: desired state during this step
 	Deleted bool      `json:"deleted"` // rec: the revision is deleted (client Delete) before this step
+	Par     bool      `json:"par"`     // rec: runs concurrently with the next step (a rec step of another revision)
 	F       c15Faults `json:"f"`
 	O       c15Oracle `json:"o"`
 	SigCfg  string    `json:"sigCfg"` // sig: none | some | err
@@ -551,8 +553,8 @@ func (f *c15Fetcher) Tags(context.Context, name.Reference, ...string) ([]string,
 
 // ---------------------------------------------------------------- faulty cache filesystem
 
-type c15Fs struct {
-	afero.Fs
+// c15FsPlan: the faults of one reconcile, applied to the cache paths of its revision.
+type c15FsPlan struct {
 	createFail bool
 	writeN     int // -1: none
 	closeFail  bool
@@ -561,15 +563,40 @@ type c15Fs struct {
 	onRemove   func(name string)
 }
 
+// c15Fs wraps the cache file system shared by all reconcilers of a world.
+type c15Fs struct {
+	afero.Fs
+	mu    sync.Mutex
+	plans map[string]*c15FsPlan
+}
+
+func (fs *c15Fs) plan(name string) *c15FsPlan {
+	fs.mu.Lock()
+	defer fs.mu.Unlock()
+	return fs.plans[name]
+}
+
+func (fs *c15Fs) setPlan(p *c15FsPlan, paths ...string) {
+	fs.mu.Lock()
+	defer fs.mu.Unlock()
+	for _, n := range paths {
+		if p == nil {
+			delete(fs.plans, n)
+		} else {
+			fs.plans[n] = p
+		}
+	}
+}
+
 type c15File struct {
 	afero.File
-	fs      *c15Fs
+	plan    *c15FsPlan
 	written int
 }
 
 func (f *c15File) Write(p []byte) (int, error) {
-	if f.fs.writeN >= 0 && f.written+len(p) > f.fs.writeN {
-		k := f.fs.writeN - f.written
+	if f.plan != nil && f.plan.writeN >= 0 && f.written+len(p) > f.plan.writeN {
+		k := f.plan.writeN - f.written
 		if k < 0 {
 			k = 0
 		}
@@ -584,35 +611,37 @@ func (f *c15File) Write(p []byte) (int, error) {
 
 func (f *c15File) Close() error {
 	err := f.File.Close()
-	if f.fs.closeFail {
+	if f.plan != nil && f.plan.closeFail {
 		return errC15Fs
 	}
 	return err
 }
 
 func (fs *c15Fs) Create(name string) (afero.File, error) {
-	if fs.createFail {
+	pl := fs.plan(name)
+	if pl != nil && pl.createFail {
 		return nil, errC15Fs
 	}
 	f, err := fs.Fs.Create(name)
 	if err != nil {
 		return nil, err
 	}
-	return &c15File{File: f, fs: fs}, nil
+	return &c15File{File: f, plan: pl}, nil
 }
 
 func (fs *c15Fs) Open(name string) (afero.File, error) {
-	if fs.openFail {
+	if pl := fs.plan(name); pl != nil && pl.openFail {
 		return nil, errC15Fs
 	}
 	return fs.Fs.Open(name)
 }
 
 func (fs *c15Fs) Remove(name string) error {
-	if fs.onRemove != nil {
-		fs.onRemove(name)
+	pl := fs.plan(name)
+	if pl != nil && pl.onRemove != nil {
+		pl.onRemove(name)
 	}
-	if fs.removeFail {
+	if pl != nil && pl.removeFail {
 		return errC15Fs
 	}
 	return fs.Fs.Remove(name)
@@ -674,6 +703,8 @@ type c15World struct {
 	scn   *c15Scn
 	st    *Store
 	mem   afero.Fs
+	fs    *c15Fs                // fault injector around mem, shared by every reconciler
+	cache *xpkg.FsPackageCache // ONE cache instance (one mutex), as in the package manager
 	revs  []*c15RevW
 	metaS *runtime.Scheme
 	objS  *runtime.Scheme
@@ -702,6 +733,8 @@ func c15CachePath(id string) string { return xpkg.BuildPath(c15CacheDir, id, ".g
 
 func c15NewWorld(scn *c15Scn) *c15World {
 	w := &c15World{scn: scn, st: NewStore(c15Scheme()), mem: afero.NewMemMapFs()}
+	w.fs = &c15Fs{Fs: w.mem, plans: map[string]*c15FsPlan{}}
+	w.cache = xpkg.NewFsPackageCache(c15CacheDir, w.fs)
 	w.metaS, _ = xpkg.BuildMetaScheme()
 	w.objS, _ = xpkg.BuildObjectScheme()
 	for i := range scn.Revs {
@@ -971,9 +1004,53 @@ func (w *c15World) runSig(s *c15Step) (c15StepObs, []Mon) {
 	return o, mons
 }
 
+// c15Pending is a prepared revision reconcile (environment applied, faults armed).
+type c15Pending struct {
+	s              *c15Step
+	rw             *c15RevW
+	rec            *revision.Reconciler
+	est            *c15Establisher
+	before         pkgv1.PackageRevision
+	existed        bool
+	verifiedBefore bool
+	deleting       bool
+	refsBefore     int
+	cacheBefore    []string
+	left           string
+	paths          []string
+	res            reconcile.Result
+	err            error
+	panicked       string
+}
+
 func (w *c15World) runRec(s *c15Step) (c15StepObs, []Mon) {
+	p := w.prepRec(s)
+	p.exec()
+	return w.finishRec(p)
+}
+
+// runRecPair runs two prepared reconciles of different revisions concurrently.
+func (w *c15World) runRecPair(s1, s2 *c15Step) (c15StepObs, []Mon, c15StepObs, []Mon) {
+	p1 := w.prepRec(s1)
+	p2 := w.prepRec(s2)
+	var wg sync.WaitGroup
+	wg.Add(2)
+	go func() { defer wg.Done(); p1.exec() }()
+	go func() { defer wg.Done(); p2.exec() }()
+	wg.Wait()
+	o1, m1 := w.finishRec(p1)
+	o2, m2 := w.finishRec(p2)
+	return o1, m1, o2, m2
+}
+
+func (p *c15Pending) exec() {
+	p.panicked = Guard(func() {
+		p.res, p.err = p.rec.Reconcile(context.Background(), reconcile.Request{NamespacedName: types.NamespacedName{Name: p.rw.rev.Name}})
+	})
+}
+
+func (w *c15World) prepRec(s *c15Step) *c15Pending {
 	rw := w.revs[s.R]
-	var mons []Mon
 	ctx := context.Background()
 
 	// environment: desired state / deletion
@@ -1026,19 +1103,21 @@ func (w *c15World) runRec(s *c15Step) (c15StepObs, []Mon) {
 		fetch.err = errC15Fetch
 	}
 
-	// cache faults
-	left := "none"
-	fs := &c15Fs{Fs: w.mem, writeN: -1, createFail: s.F.Store == "create", closeFail: s.F.Store == "close", openFail: s.F.Get, removeFail: s.F.Del}
+	// cache faults, on the cache paths of this revision
+	pd := &c15Pending{s: s, rw: rw, before: before, existed: existed, verifiedBefore: verifiedBefore, deleting: deleting, refsBefore: refsBefore, cacheBefore: cacheBefore, left: "none"}
+	plan := &c15FsPlan{writeN: -1, createFail: s.F.Store == "create", closeFail: s.F.Store == "close", openFail: s.F.Get, removeFail: s.F.Del}
 	if s.F.Store == "write" {
-		fs.writeN = s.F.StoreN
+		plan.writeN = s.F.StoreN
 	}
-	fs.onRemove = func(p string) {
+	plan.onRemove = func(p string) {
 		c := c15Classify(w.mem, p, rw.stream)
 		if c == "absent" {
 			c = "none"
 		}
-		left = c
+		pd.left = c
 	}
+	pd.paths = []string{c15CachePath(rw.rev.Name), c15CachePath(rw.rev.Source)}
+	w.fs.setPlan(plan, pd.paths...)
 
 	est := &c15Establisher{fail: s.F.Est}
 	flags := &feature.Flags{}
@@ -1048,7 +1127,7 @@ func (w *c15World) runRec(s *c15Step) (c15StepObs, []Mon) {
 	cl := &c15UpdClient{Client: w.st, mode: s.F.Upd}
 	rec := revision.NewReconciler(&rfake.Manager{Client: cl},
 		revision.WithClientApplicator(resource.ClientApplicator{Client: cl, Applicator: resource.NewAPIUpdatingApplicator(cl)}),
-		revision.WithCache(xpkg.NewFsPackageCache(c15CacheDir, fs)),
+		revision.WithCache(w.cache),
 		revision.WithNewPackageRevisionFn(rw.newRev),
 		revision.WithFinalizer(resource.NewAPIFinalizer(w.st, "revision.pkg.crossplane.io")),
 		revision.WithDependencyManager(c15Deps{}),
@@ -1060,14 +1139,19 @@ func (w *c15World) runRec(s *c15Step) (c15StepObs, []Mon) {
 		revision.WithVersioner(version.VerifNewWithVersion(c15XPVersion)),
 		revision.WithFeatureFlags(flags),
 	)
-	var res reconcile.Result
-	var err error
-	if p := Guard(func() {
-		res, err = rec.Reconcile(ctx, reconcile.Request{NamespacedName: types.NamespacedName{Name: rw.rev.Name}})
-	}); p != "" {
-		mons = append(mons, Mon{Sig: "C15:panic", Why: p})
+	pd.rec, pd.est = rec, est
+	return pd
+}
+
+func (w *c15World) finishRec(p *c15Pending) (c15StepObs, []Mon) {
+	s, rw, est := p.s, p.rw, p.est
+	before, existed, verifiedBefore, deleting, refsBefore, cacheBefore, left := p.before, p.existed, p.verifiedBefore, p.deleting, p.refsBefore, p.cacheBefore, p.left
+	w.fs.setPlan(nil, p.paths...)
+	var mons []Mon
+	if p.panicked != "" {
+		mons = append(mons, Mon{Sig: "C15:panic", Why: p.panicked})
 	}
-	o := w.stepObs(rw, c15ResClass(res, err))
+	o := w.stepObs(rw, c15ResClass(p.res, p.err))
 	o.Control = est.control
 	if est.called {
 		o.Est = [][2]string{}
@@ -1118,6 +1202,10 @@ func (w *c15World) runRec(s *c15Step) (c15StepObs, []Mon) {
 			if rw.parses && len(est.objs) < len(rw.declared) {
 				sig = "C15:installed-subset"
 			}
+			if s.F.Store != "" && s.F.Read < 0 && cacheBefore[s.R] == "absent" {
+				// pulled from the image while the cache write failed: the write error was overlooked (D18)
+				sig = "C15:installed-truncated-on-store-failure"
+			}
 			mons = append(mons, Mon{Sig: sig, Why: why + fmt.Sprintf(" (revision %s, cache before: %v)", rw.rev.Name, cacheBefore)})
 		}
 		// (3) gates
@@ -1131,13 +1219,7 @@ func (w *c15World) runRec(s *c15Step) (c15StepObs, []Mon) {
 	}
 	// (4) verification gate also guards every side effect
 	if w.scn.Feature && existed && !deleting && !verifiedBefore {
-		after := o.Cache
-		changed := false
-		for i := range after {
-			if after[i] != cacheBefore[i] {
-				changed = true
-			}
-		}
+		changed := o.Cache[s.R] != cacheBefore[s.R]
 		if est.called || changed || o.Healthy == "healthy" {
 			mons = append(mons, Mon{Sig: "C15:unverified-progress", Why: fmt.Sprintf("verification enabled and Verified!=True, yet establish=%v cacheChanged=%v healthy=%s", est.called, changed, o.Healthy)})
 		}
@@ -1231,11 +1313,21 @@ func c15Run(scn *c15Scn) (c15Obs, []Mon) {
 	w := c15NewWorld(scn)
 	obs := c15Obs{Steps: []c15StepObs{}}
 	var mons []Mon
-	for i := range scn.Steps {
+	for i := 0; i < len(scn.Steps); i++ {
 		s := &scn.Steps[i]
 		if s.R < 0 || s.R >= len(w.revs) {
 			continue
 		}
+		if s.Par && s.K == "rec" && i+1 < len(scn.Steps) {
+			if n := &scn.Steps[i+1]; n.K == "rec" && n.R != s.R && n.R >= 0 && n.R < len(w.revs) && !n.Par {
+				o1, m1, o2, m2 := w.runRecPair(s, n)
+				obs.Steps = append(obs.Steps, o1, o2)
+				mons = append(append(mons, m1...), m2...)
+				i++
+				continue
+			}
+		}
+		s.Par = false
 		var o c15StepObs
 		var m []Mon
 		if s.K == "sig" {
